@@ -172,6 +172,16 @@ def Fmt.mul (F : Fmt) (a b : FV) : FV := F.fl (a.mulX b)
 def Fmt.add (F : Fmt) (a b : FV) : FV := F.fl (a.addX b)
 def Fmt.sub (F : Fmt) (a b : FV) : FV := F.fl (a.subX b)
 
+/-! ### error constants of `fl` (relative `u`, absolute `eta`): `|fl z - z| ≤ u·|z| + eta`
+whenever the result is finite (proved in `Proofs/Float`). -/
+
+def Fmt.u1 (F : Fmt) : Rat := pow2 (-(F.p : Int))
+def Fmt.eta1 (F : Fmt) : Rat := pow2 (F.emin - (F.p : Int))
+def Fmt.u (F : Fmt) : Rat :=
+  if F.isHalf then F.u1 + f32.u1 + F.u1 * f32.u1 else F.u1
+def Fmt.eta (F : Fmt) : Rat :=
+  if F.isHalf then F.eta1 + (1 + F.u1) * f32.eta1 else F.eta1
+
 /-! ### bit patterns -/
 
 def Fmt.width (F : Fmt) : Nat := 1 + F.ebits + F.mbits
